@@ -31,6 +31,7 @@ def module_ast(module):
 def locate(target):
     """'lark.utils:small_factors' | 'lark.lexer:LineCounter.feed' | 'm:f.<locals>.g' -> (path, src, FunctionDef/ClassDef)."""
     module, qual = target.split(':', 1)
+    qual = qual.split('#', 1)[0]          # 'Class.method#region' names a statement region of that function
     path, src, tree = module_ast(module)
     node = tree
     for part in qual.split('.'):
